@@ -1,6 +1,6 @@
 (* C13: the recurrences of the model are the textbook polynomials (exact, over Q). *)
 From Coq Require Import QArith Qpower Qabs Lqa List Bool Lia ZArith.
-From PV Require Import Lib.WLS C13.LinAlg C13.LinAlgProofs C13.Model.
+From PV Require Import Lib.WLS C13.LinAlg C13.LinAlgProofs Generated.Trace C13.Model.
 Import ListNotations.
 Open Scope Q_scope.
 
@@ -78,12 +78,16 @@ Proof.
 Qed.
 
 (* ------------------------------------------------------------------ monomials *)
+(* fpoly as written in the source: ones, leg[1] = x, leg[k] = leg[k-1] * x *)
+Lemma monomial_SS n x : monomial (S (S n)) x = monomial (S n) x * x.
+Proof. reflexivity. Qed.
 Lemma monomial_is_pow n x : monomial n x == x ^ Z.of_nat n.
 Proof.
-  induction n as [|n IH].
+  induction n as [| |n IH1 IH2] using pair_induction.
   - reflexivity.
-  - change (monomial (S n) x) with (monomial n x * x). rewrite IH.
-    rewrite Nat2Z.inj_succ, <- Z.add_1_r. rewrite Qpower_plus' by lia.
+  - reflexivity.
+  - rewrite monomial_SS, IH2.
+    rewrite (Nat2Z.inj_succ (S n)), <- Z.add_1_r. rewrite Qpower_plus' by lia.
     change (x ^ 1) with x. reflexivity.
 Qed.
 
@@ -186,12 +190,19 @@ Proof. rewrite !legendre_rec_SS. unfold Qn. simpl. field. Qed.
 Lemma chebyshev_3 x : chebyshev_rec 3 x == 4 * x * x * x - 3 * x.
 Proof. rewrite !chebyshev_rec_SS. simpl. ring. Qed.
 
+(* flegendre / fchebyshev as written in the source (ones, row 1 = x, polyval of the scipy family of degree k) are
+   the Legendre / Chebyshev recurrences *)
+Lemma flegendre_row_is_legendre k x : flegendre_row k x == legendre_rec k x.
+Proof. destruct k as [|[|k]]; reflexivity. Qed.
+Lemma fchebyshev_row_is_chebyshev k x : fchebyshev_row k x == chebyshev_rec k x.
+Proof. destruct k as [|[|k]]; reflexivity. Qed.
+
 (* M's basis = S's basis for every order up to 12 (degree k <= 12; ChebSplit: k <= 13) *)
 Lemma basis_is_spec f k x : (k <= 12)%nat -> basis f k x == basis_spec f k x.
 Proof.
   intros H. destruct f; simpl.
-  - apply legendre_closed_form; exact H.
-  - apply chebyshev_closed_form; exact H.
+  - rewrite flegendre_row_is_legendre. apply legendre_closed_form; exact H.
+  - rewrite fchebyshev_row_is_chebyshev. apply chebyshev_closed_form; exact H.
   - apply monomial_is_pow.
   - destruct k as [|k]; [reflexivity|]. rewrite chebyshev_split_S. apply chebyshev_closed_form. lia.
 Qed.
